@@ -91,11 +91,12 @@ func (p *Prop) Generate(rng *core.Rand, tier string, emit func(string)) {
 }
 
 var malformed = []string{
-	"X", "L", "L=0~-~-", "L=0~-~-=1,0,-,-", "L=4~-~-=1,0,-,-,-", "L=0~-~0,1,1,-,-=1,0,-,-,-",
-	"L=0~-~1,1,0,-,-;0,1,0,-,-=1,0,-,-,-", "L=0~-~3,1,3,-,-=1,0,-,-,-", "L=0~0:0~-=1,0,-,-,-",
-	"L=0~1:1+0:2~-=1,0,-,-,-", "V=1~-~-=1,0,-,-,-", "D=4=0,0,-,-,-", "L=0~-~0,1,0,9,-=1,0,-,-,-",
-	"L=0~-~0,1,0,-,5:0=1,0,-,-,-", "L=0~-~-=2,0,-,-,-", "L=0~-~-=1,0,-,0.0,-", "S S S S S S S S S S S S S",
-	"P=0,1,1,-,-=0,0,-,-,-", "L=0~-~0,x,0,-,-=1,0,-,-,-",
+	"X", "L", "L=0~-~-", "L=0~-~-=1,0,-,-,-", "L=4~-~-=1,0,0,-,-,-", "L=0~-~0,1,1,-,-=1,0,0,-,-,-",
+	"L=0~-~1,1,0,-,-;0,1,0,-,-=1,0,0,-,-,-", "L=0~-~3,1,3,-,-=1,0,0,-,-,-", "L=0~0:0~-=1,0,0,-,-,-",
+	"L=0~1:1+0:2~-=1,0,0,-,-,-", "V=1~-~-=1,0,0,-,-,-", "D=4=0,0,0,-,-,-", "L=0~-~0,1,0,9,-=1,0,0,-,-,-",
+	"L=0~-~0,1,0,-,5:0=1,0,0,-,-,-", "L=0~-~-=2,0,0,-,-,-", "L=0~-~-=1,0,0,-,0.0,-", "S S S S S S S S S S S S S",
+	"P=0,1,1,-,-=0,0,0,-,-,-", "L=0~-~0,x,0,-,-=1,0,0,-,-,-", "L=0~-~-=1,0,3,-,-,-",
+	"L=0~-~-=1,0,0,-,-,- L=0~-~-=1,0,1,-,-,-", "L=0~-~0,1,0,-,0:4=1,0,0,-,-,-", "L=0~-~3,1,0,-,1:4=1,0,0,-,-,-",
 }
 
 func tagsOf(ops []Op, obs []StepObs) []string {
